@@ -36,7 +36,7 @@ case("c13-swallow-error", "break", ["C13"], [(CORE + "profile.rs", "let tmp = f(
 case("c13-keep-while", "keep", ["C13"], [(CORE + "profile.rs", "    for _i in 0..=3 {\n        let tmp = f(&c)?;", "    let mut _n = 0;\n    while _n < 4 {\n        _n += 1;\n        let tmp = f(&c)?;")], "for → while with a counter")
 
 # ------------------------------------------------------------------ C15
-case("c15-no-flush", "break", ["C15"], [(TOOLS + "generators/bidi_class.rs", "        if let (Some(r), Some(v)) = (range.as_ref(), val.as_ref()) {\n            add_range(r, v, &mut out);\n        }\n", "")], "reverts the D6 repair", expect_key=["flush-on-exit"])
+case("c15-no-flush", "break", ["C15"], [(TOOLS + "generators/bidi_class.rs", "        if let (Some(r), Some(v)) = (range.as_ref(), val.as_ref()) {\n            add_range(r, v, &mut out);\n        }\n", "")], "reverts the D6 repair", expect_key=["bidi-run-semantics|finish"])
 case("c15-no-final-gap", "break", ["C15"], [(TOOLS + "generators/ucd_generator.rs", "        if self.range.start.value() <= last.value() {", "        if self.range.start.value() > last.value() {")], "trailing gap suppressed (data level)")
 case("c15-no-sort", "break", ["C15"], [(TOOLS + "common.rs", "    vec.sort();\n", "")], "merge of an unsorted HashSet iteration")
 case("c15-virama-7", "break", ["C15", "C03"], [(TOOLS + "generators/ucd_generator.rs", "const CANONICAL_COMBINING_CLASS_VIRAMA: u8 = 9;", "const CANONICAL_COMBINING_CLASS_VIRAMA: u8 = 7;")])
@@ -377,7 +377,7 @@ case("c16-keep-cow-match", "keep", ["C16", "C05", "C04"], [(CM, """    let s = s
         }
     }""")], "matching on the Cow variant with the same content in both arms")
 case("c15-merge-across-gap", "break", ["C15"], [(_TC, "if **cp - r.end.value() == 1 {", "if **cp - r.end.value() <= 2 {")], "a run is extended across a one-code-point hole", expect_key=["merge-semantics|step"])
-case("c15-merge-no-final-flush", "break", ["C15"], [(_TC, "    add_range(&range, &mut out);\n\n    out", "    out")], "the last run is never emitted", expect_key=["merge-semantics|finish", "flush-on-exit"])
+case("c15-merge-no-final-flush", "break", ["C15"], [(_TC, "    add_range(&range, &mut out);\n\n    out", "    out")], "the last run is never emitted", expect_key=["merge-semantics|finish"])
 case("c15-merge-new-run-off-by-one", "break", ["C15"], [(_TC, """                    range = Some(CodepointRange {
                         start: Codepoint::from_u32(**cp).unwrap(),
                         end: Codepoint::from_u32(**cp).unwrap(),
